@@ -28,17 +28,6 @@ pub enum Beh {
 pub const BEH_NAMES: [&str; 7] = ["answer", "nx", "trunc", "silent", "ioerr", "busy", "connfail"];
 
 impl Beh {
-    pub fn name(&self) -> &'static str {
-        match self {
-            Beh::Answer { .. } => "answer",
-            Beh::Nx { .. } => "nx",
-            Beh::Trunc { .. } => "trunc",
-            Beh::Silent => "silent",
-            Beh::IoErr { .. } => "ioerr",
-            Beh::Busy { .. } => "busy",
-            Beh::ConnFail { .. } => "connfail",
-        }
-    }
     pub fn text(&self) -> String {
         match self {
             Beh::Answer { d } => format!("answer:{d}"),
